@@ -30,6 +30,7 @@ type Opt struct {
 	NoPause   bool // no pause flags generated
 	Split1    bool // single-byte nonce split in generated metadata (quick tier)
 	NoURIs    bool // generated metadata carries no URIs
+	FullAmounts bool // numeric amounts keep their adversarial length set even in a Small scenario
 	SysDest   bool // allow the system account address as transfer destination (finding F10's class)
 	Presence  int  // account presence: 0 free, 1 (S,D), 2 (S,nil), 3 (nil,D)
 	MultiK    int  // multi-transfer: number of tokens (0: 1..2)
@@ -124,6 +125,7 @@ func newScn(name string, o Opt) *Scn {
 	}
 	small = o.Small || o.Wild // wild scenarios discard the typical arguments: build them in their smallest shape
 	noCall = o.NoCall || o.Wild
+	fullAmounts = o.FullAmounts
 	if o.NoURIs {
 		cfg.MaxURIs = 0
 	}
